@@ -99,6 +99,11 @@ def _coerce(col, const, case, op="=="):
         # pandas.isin casts the listed instants to the column's unit (lossy), scalar comparisons do not:
         # an instant the column's unit cannot hold has no agreed membership -> incomparable (U)
         u = cases.UNIT_NS[col["unit"]]
+        if col["name"] in (case.get("partition_on") or []):
+            # a partition column's dtype is inferred from the labels in the paths: the coarsest of s/ms/us/ns that holds
+            # them all (pandas >= 3); take the coarsest that holds the instants present in the frame
+            present = [v[1] for v in gfilters.cell_values(col, case["frame"]["n"]) if isinstance(v, tuple)]
+            u = next((k for k in (10 ** 9, 10 ** 6, 10 ** 3) if all(x % k == 0 for x in present)), 1)
         return [("fuzzy", c) if (isinstance(c, tuple) and c[1] % u) else c for c in const]
     if col["kind"] == "float" and col.get("sub") == "float32":
         # numpy >= 2 compares a float32 value with a Python float in float32 (weak scalar
